@@ -47,7 +47,9 @@ def gen_cases(ctx):
     for i in range(ctx.share(ctx.scale(150, 16000))):
         rng = ctx.rng(2, i)
         yield {"kind": "pathline", "flow": ["corner", "shear", "cell"][i % 3], "pair": int(rng.integers(6)),
-               "amp": float(10.0 ** rng.uniform(-10, 1)), "seed": int(rng.integers(1 << 31)),
+               # one flow in seven is so slow that neither the strain limit nor the box is reached within the
+               # 100 Myr integration horizon (the pathline then simply spans the whole horizon)
+               "amp": float(10.0 ** (rng.uniform(-10, 1) if i % 7 else rng.uniform(-20, -16.5))), "seed": int(rng.integers(1 << 31)),
                "max_strain": float(rng.choice([0.5, 2.0, 7.0])), "steps": [None, 10, 100][int(rng.integers(3))],
                "box": str(rng.choice(["std", "thin", "offset"]))}
     for i in range(ctx.share(ctx.scale(600, 20000))):
@@ -247,6 +249,8 @@ def _pathline(ctx, pydrex, case):
             ctx.check("pathline_options_do_not_leak", False, pt, key=("pathline_raises/brentq_sign" if k4 else "pathline_options_leak/raises"),
                       explained=(True if k4 else None), exc=msg[:120])
     ctx.case(case, nontrivial=len(ts) > 2)
+    if abs(ts[0]) >= 0.999 * 100e6 * 365.25 * 8.64e4:
+        ctx.cls("pathline/spans_whole_horizon")
     ctx.check("pathline_timestamps", bool(np.all(np.diff(ts) > 0)) and ts[-1] == 0.0 and len(ts) >= 2, pt, ts_head=ts[:3].tolist(), ts_tail=ts[-3:].tolist())
     if case["steps"] is not None:
         ctx.check("pathline_regular_steps", len(ts) == case["steps"] + 1, pt, n=len(ts))
